@@ -963,6 +963,104 @@ fn chain_grid(rep: &mut Report) {
     rep.add(o);
 }
 
+/// (i) the label of a recursion diagnostic (P0010 / P0013) names a declaration that takes part in the
+/// recursion: one that lies on a cycle of the reference graph.  All digraphs on <= 3 nodes (and a
+/// sample on 4) in C07's three realisations, alone and behind unrelated declarations, in one file
+/// and with the unrelated declarations in a file of their own
+pub fn check_cycle_label(files: &[(String, String)], on_cycle: &[String]) -> Result<bool, (String, String)> {
+    let mut libs = vec![];
+    for (f, text) in files {
+        match crate::panicx::catch(|| parse_program(text, &FileId::from_string(f), &ParseOptions::default())) {
+            Ok(Ok(l)) => libs.push(l),
+            _ => return Ok(false),
+        }
+    }
+    let refs: Vec<&ironplc_dsl::common::Library> = libs.iter().collect();
+    let ds = match crate::panicx::catch(|| analyze(&refs)) {
+        Ok(Err(ds)) => ds,
+        _ => return Ok(false),
+    };
+    let mut judged = false;
+    for d in ds.iter().filter(|d| d.code == "P0010" || d.code == "P0013") {
+        let fname = d.primary.file_id.to_string();
+        let text = match files.iter().find(|(f, _)| *f == fname) {
+            Some((_, t)) => t,
+            None => return Err(("cycle-label-file".into(), format!("{}: the label names {:?}, which is no file of the set", d.code, fname))),
+        };
+        let (s, e) = (d.primary.location.start, d.primary.location.end);
+        if s > e || e > text.len() || !text.is_char_boundary(s) || !text.is_char_boundary(e) {
+            return Err(("cycle-label-range".into(), format!("{}: label {}..{} is no range of {}", d.code, s, e, fname)));
+        }
+        let covered = text[s..e].to_ascii_lowercase();
+        if !on_cycle.iter().any(|n| *n == covered) {
+            return Err(("cycle-label-off-the-cycle".into(), format!("{}: the label covers {:?} in {}; the declarations that lie on a cycle are {:?}", d.code, &text[s..e], fname, on_cycle)));
+        }
+        judged = true;
+    }
+    Ok(judged)
+}
+
+fn cycle_grid(rep: &mut Report) {
+    use crate::props::c07::{realise_fb, realise_mixed, realise_type, Graph};
+    let mut items: Vec<(usize, u64, usize)> = vec![];
+    for n in 1..=3usize {
+        for bits in 0..(1u64 << (n * n)) {
+            for real in 0..3 {
+                items.push((n, bits, real));
+            }
+        }
+    }
+    for k in 0..600u64 {
+        let bits = crate::tape::mix(k ^ 0xc1c1e) & 0xffff;
+        items.push((4, bits, (k % 3) as usize));
+    }
+    let out = run_items(&items, 16, |&(n, bits, real), stats| {
+        let g = Graph::from_bits(n, bits);
+        if !g.cyclic() {
+            return Ok(());
+        }
+        // nodes on a cycle: i reaches itself
+        let mut reach = g.adj.clone();
+        for k in 0..n {
+            for i in 0..n {
+                for j in 0..n {
+                    if reach[i][k] && reach[k][j] {
+                        reach[i][j] = true;
+                    }
+                }
+            }
+        }
+        let salt = crate::tape::mix(bits ^ (n as u64) << 20 ^ real as u64);
+        let (text, stem) = match real {
+            0 => (realise_fb(&g, salt, false).0, "fb"),
+            1 => (realise_type(&g, salt, false).0, "t"),
+            _ => match realise_mixed(&g, salt, false) {
+                Some((t, _)) => (t, "n"),
+                None => return Ok(()),
+            },
+        };
+        let on_cycle: Vec<String> = (0..n).filter(|&i| reach[i][i]).flat_map(|i| vec![format!("{}{}", stem, i), format!("fb{}", i), format!("t{}", i), format!("ts{}", i), crate::props::c07::STANDARD_NAMES[i].to_string()]).collect();
+        let front = "TYPE\nlevel_zz : (low_zz, high_zz);\ncolour_zz : (red_zz, green_zz);\nEND_TYPE\nFUNCTION_BLOCK other_zz\nVAR\nq_zz : level_zz;\nEND_VAR\nEND_FUNCTION_BLOCK\n";
+        let arrangements: Vec<Vec<(String, String)>> = vec![
+            vec![("one.st".to_string(), text.clone())],
+            vec![("one.st".to_string(), format!("{}{}", front, text))],
+            vec![("one.st".to_string(), format!("{}{}", text, front))],
+            vec![("a_front.st".to_string(), front.to_string()), ("b_cycle.st".to_string(), text.clone())],
+            vec![("a_cycle.st".to_string(), text.clone()), ("b_front.st".to_string(), front.to_string())],
+        ];
+        for files in arrangements {
+            stats.case(true, hash_str(&format!("{:?}", files)));
+            match check_cycle_label(&files, &on_cycle) {
+                Ok(true) => stats.class(&format!("i.cycle-label.judged.{}", stem)),
+                Ok(false) => stats.class("i.cycle-label.not-judged"),
+                Err((k, d)) => return Err(Failure::new("cycle-label", &k, d, json!({"files": files, "on_cycle": on_cycle}))),
+            }
+        }
+        Ok(())
+    });
+    rep.add(out);
+}
+
 fn clash_forms(name: &str, tag: &str) -> Vec<(&'static str, String)> {
     vec![
         ("enum", format!("TYPE\n{} : (v1_{t}, v2_{t});\nEND_TYPE\n", name, t = tag)),
@@ -1131,6 +1229,7 @@ pub fn run(ctx: &Ctx) -> i32 {
     large_positions(&mut rep);
     clash_grid(&mut rep);
     chain_grid(&mut rep);
+    cycle_grid(&mut rep);
     rep.replay_witnesses(&ctx.findings, &|w| witness(w, &Gates::all_on()));
     rep.extra.insert("gates_off".into(), json!(off));
     rep.assumptions = vec![
